@@ -266,6 +266,8 @@ def run_case(c):
             mw.serve_line(mw.handler(p), json.dumps(REQS[pk]).encode())
             mw.check_sim(w)
             w.faults.clear()
+    if key[1].endswith("@ui"):
+        w.mode = UIHB           # whatever went before, the request meets the device in UI mode
     return judge(c, w, p, key, kinds)
 
 
@@ -324,7 +326,7 @@ def judge(c, w, p, key, kinds):
             raise Violation("nominal-not-success:%s" % cmd, "%s -> %r" % (where, rep))
     elif code in (0, 1):
         ok = False
-        if c["r"] == "uiHb" and kind == "exit" and o in ("read", "write", "timeout"):
+        if c["r"].startswith("uiHb") and kind == "exit" and o in ("read", "write", "timeout"):
             ok = True     # the link is expected to drop there (see C11/C13); with a read
             #               error or a time-out the device has acted on the command
         elif last is not None and success_ops is not None:
